@@ -36,6 +36,12 @@ def generated_obligations(ctx, render, namespace, only, what, sites=None):
     ctx.coverage.setdefault("generated_sha", hashlib.sha256(text.encode()).hexdigest()[:16])
 
 
+def reader_obligations(ctx):
+    """translate/reader.py: read_reporter_results() and the decision of reporter_finish_test(), rendered from the current source, are the model's"""
+    import reader as rd
+    generated_obligations(ctx, rd.render, "Cgreen.Gen.Reader", None, "read_reporter_results() and the decision of reporter_finish_test() rendered into Lean")
+
+
 def outside_bracket_scens():
     """Scenarios in which a failed check reaches the channel outside a test's own bracket: (scenario, description)."""
     late = []
@@ -147,6 +153,7 @@ def check_C01(ctx):
 
 def check_C03(ctx):
     runner_lean(ctx)
+    reader_obligations(ctx)
     rng = random.Random(ctx.seed * 1000 + 3)
     bench = Bench(ctx)
     scens = small_scope(rng, sizes(ctx, 40, 400)) + [Scen(gen_tree(rng, max_tests=14)) for _ in range(sizes(ctx, 60, 1500))]
@@ -266,6 +273,7 @@ def c02_facts(scen, m):
 
 def check_C02(ctx):
     runner_lean(ctx)
+    reader_obligations(ctx)
     rng = random.Random(ctx.seed * 1000 + 2)
     bench = Bench(ctx)
     scens = []
@@ -386,6 +394,7 @@ def oracle_C18(scen, m, o, reporter):
 
 def check_C18(ctx):
     runner_lean(ctx)
+    reader_obligations(ctx)
     rng = random.Random(ctx.seed * 1000 + 18)
     bench = Bench(ctx)
     cap = measure_cap(bench)
